@@ -20,6 +20,9 @@ LEVEL_TEXT += " " + '(NODATA) the result pointer is non-NULL wherever a parser h
 # seventh/eighth-round addition
 TECHNIQUE += "; " + 'skip-edge vocabulary of the counted conversion loops (R-C18-SKIP)'
 LEVEL_TEXT += " " + '(SKIP, eighth round) inside the counted conversion loops an element is passed over only because of its type, class or a missing record, never because of its value (an empty character-string is a value).'
+# ninth-round addition
+TECHNIQUE += "; " + 'length-field provenance of binary values'
+LEVEL_TEXT += " " + '(KEYS, ninth round) the length a legacy parser reports for a binary value is the length the record API reported, not a string length of the copy.'
 LEVEL_NOTE = "trusts clang CFG + extractor; field-value equality with the record API for all messages is a differential property and needs execution"
 DESIGN_REF = "DESIGN.md §6/C18"
 EXPLANATION = LEVEL_TEXT
